@@ -618,7 +618,12 @@ def strings(rep):
     rep.ob("O16.3", "R3d", ad, arrow is not None and arrow.strip() in toks and "|" in toks, f"printer arrow {arrow!r} / parser splits {toks}", "the arrow and the suffix bar are the tokens the parser splits on")
     adefs = local_defs(ad.node)
     rets = returns_of(ad.node)
-    am = pmatch("self.add_rxn($$re, $$pr, rule=$rule)", rets[-1].value) if rets else None
+    am = None
+    if rets and isinstance(rets[-1].value, ast.Call) and norm(rets[-1].value.func) == "self.add_rxn" and len(rets[-1].value.args) >= 2:
+        from ..core import bound
+        rl = bound(ad, rets[-1].value, "rule")
+        if isinstance(rl, ast.Name):
+            am = {"rule": rl.id}
     ok = False
     if am:
         l_ = pmatch("RXNSide.from_str($x)", origin(adefs, rets[-1].value.args[0]))
